@@ -59,6 +59,20 @@ Theorem fault_file_within_limit : forall (partial : bool) (limit cap : N) (ops :
 Proof. exact Sink_proofs.fault_file_within_limit_proof. Qed.
 Print Assumptions fault_file_within_limit.
 
+(* on a file system that stores the fitting part of a failing request (EFBIG / ENOSPC as Linux does it) the file
+   left behind after the process exits is exactly the first `limit` bytes of the complete archive: nothing is
+   reordered, skipped or appended by the Drop path (all stream ids valid: flush_buffers has no error of its own) *)
+Theorem fault_leaves_prefix : forall (limit cap : N) (ops : list wop), Forall buffered_only ops ->
+  snd (flush_buffers (fst (wrun w_init ops))) = Ok tt ->
+  limit < lenN (complete_file ops) ->
+  let a := fst (ar_run code_sites (ar_open (limit_policy true limit) cap) (map AOp ops)) in
+  ar_file (fst (main_io code_sites a)) = firstnN limit (complete_file ops).
+Proof. exact Sink_proofs.fault_leaves_prefix_proof. Qed.
+Print Assumptions fault_leaves_prefix.
+Example fault_leaves_prefix_nonvacuous :
+  Forall buffered_only ex_ops /\ snd (flush_buffers (fst (wrun w_init ex_ops))) = Ok tt /\ 20 < lenN (complete_file ex_ops).
+Proof. split; [unfold ex_ops; repeat constructor|]. vm_compute. split; reflexivity. Qed.
+
 (* every limit below the size of a concrete archive, both kinds of failing write, three capacities: Err, and
    with partial = true the file left behind is exactly `limit` bytes long *)
 Definition fault_row (partial : bool) (cap limit : N) : bool :=
